@@ -10,9 +10,9 @@ func init() {
 			{Pkg: "typed", Harness: "valueconc", Config: "faults", Weight: 1},
 		},
 		QuickS: 25, ThoroughS: 600,
-		Rule:  "valueseq/storeseq: a script of 1-8 operations (TypedValue: Get/Has/Set/Delete/Compute with new value, ErrTypedValueNotChanged or own error, occasionally through a second TypedValue object over the same key; TypedStore: Get/Has/Set/Delete/Iterate/IterateKeys with early stop, both directions, 3 keys) is first run fault-free to count its fault sites (every store call and every codec call), then re-run in a fresh world once per site with exactly that call failing (complete single-fault enumeration per script). valueconc: 2-3 clients x 1-4 ops (Compute as increment that yields inside the function, Set of unique values, Delete, Get, Has), with and without probabilistic store failures, checked for linearizability by exhaustive search. distinct = distinct (script, faults, schedule, event log) hash; non-trivial = at least two recorded decisions",
-		Real:  []string{"kvstore.TypedValue, kvstore.TypedStore", "kvstore/mapdb underneath the fault layer"},
-		Stubs: append([]string{"faultkv (fails a store call before it takes effect)", "codec functions (harness: fixed-width uint16/uint64 codecs that can be told to fail)", "compute functions"}, commonStubs...),
+		Rule:   "valueseq/storeseq: a script of 1-8 operations (TypedValue: Get/Has/Set/Delete/Compute with new value, ErrTypedValueNotChanged or own error, occasionally through a second TypedValue object over the same key; TypedStore: Get/Has/Set/Delete/Iterate/IterateKeys with early stop, both directions, 3 keys) is first run fault-free to count its fault sites (every store call and every codec call), then re-run in a fresh world once per site with exactly that call failing (complete single-fault enumeration per script). valueconc: 2-3 clients x 1-4 ops (Compute as increment that yields inside the function, Set of unique values, Delete, Get, Has), with and without probabilistic store failures, checked for linearizability by exhaustive search. distinct = distinct (script, faults, schedule, event log) hash; non-trivial = at least two recorded decisions",
+		Real:   []string{"kvstore.TypedValue, kvstore.TypedStore", "kvstore/mapdb underneath the fault layer"},
+		Stubs:  append([]string{"faultkv (fails a store call before it takes effect)", "codec functions (harness: fixed-width uint16/uint64 codecs that can be told to fail)", "compute functions"}, commonStubs...),
 		Assume: []string{"a failing store call has no effect (fail-before semantics); torn writes are not modelled (mapdb has none)", "single faults per script in the enumerating configurations; multiple faults only in valueconc/faults", "bounded scripts (<=8 ops) and histories (<=12 ops)"},
 	})
 }
